@@ -405,6 +405,8 @@ func propC03(c *Ctx, r *Report) {
 	}
 	// a rejected batch leaves every balance as it was: it is not handed to the PEG settlement (shared with C16)
 	ruleRejectedNotCollected(c, r, newEraCtx(c, r), "C03-R11/rejected-not-collected")
+	// an accepted batch is applied completely: its deferred PEG output reaches the pooled settlement (shared with C16)
+	rulePooledListAccumulates(c, r, newEraCtx(c, r), "C03-R12/pooled-list")
 	// applied completely: no statement error inside recordBatch is lost (same engine as C10)
 	r.rule("C03-R10/record-errors", 5, "every error while recording a batch reaches the caller")
 	runErrflow(c, computeEffects(c), r, map[*ssa.Function]bool{c.fn("node.Pegnetd.recordBatch"): true}, "C03-R10/record-errors", false)
